@@ -11,7 +11,7 @@ import FluteModel.Props.C04Wire   -- parser totality (C04, wire part) is built a
 
   All theorems quantify over the whole field ranges (no size bound other than the field widths).
   They are about the model of the tree AFTER the `fix:` commits for D7 (HEL ≥ 64), D13 (SCT rounding),
-  D23 (Raptor EXT_FTI layout); the model is tied to the tree by the `wire` correspondence engine.
+  D35 (Raptor EXT_FTI layout), D36 (RS GF(2^m) ESI mask), wire-1 (FDT id mask); the model is tied to the tree by the `wire` correspondence engine.
 -/
 namespace Flute.Props.C06
 open Flute Flute.Bytes Flute.Lct Flute.Fti Flute.Alc Flute.Spec Flute.Ntp
@@ -813,5 +813,151 @@ theorem spec_fpid_roundtrip (sbn esi sbl m : Nat) :
     (m ≤ 32 → sbn < 2^(32 - m) → esi < 2^m → decodeFpid 2 m (Spec.encode (fpidRs2m m sbn esi)) = some (sbn, esi, none)) :=
   ⟨decodeFpid_nocode sbn esi, decodeFpid_raptor sbn esi, decodeFpid_rs28 sbn esi, decodeFpid_raptorq sbn esi,
    decodeFpid_smallblock sbn sbl esi, decodeFpid_rs2m m sbn esi⟩
+
+
+/-! ## both directions at packet level, through the independent implementation -/
+
+/-- **parse_spec_packet** (converse direction, whole packet): for EVERY datagram an independent RFC implementation
+    may emit - any valid header `f` (any legal widths, any extension list with unknown / long extensions), a known
+    codepoint, at least a payload id after the header - `parse_alc_pkt` returns: the spec's LCT values, the OTI and
+    transfer length flute's per-scheme decoder reads from the FIRST EXT_FTI the spec's receiver finds (none if there
+    is none), the content encoding of the first EXT_CENC (none if absent or not 0..3), the EXT_FDT (version, id) of
+    the first EXT_FDT when TOI = 0, and the offsets `len = 4·HDR_LEN`, `payload = len + payload-id length`.
+    Together with `fti_<scheme>_parse_spec`, `ext_fdt_parse_spec`, `ext_cenc_parse_spec`, `payload_id_<scheme>_parse_spec`
+    (RFC diagram ↦ values) this is `flute_parse (Spec.encode P) = P`. -/
+theorem parse_spec_packet (f : LctFields) (hv : f.Valid) (rest : List Nat) (hk : knownFec f.cp = true)
+    (hlen : payloadIdLen f.cp ≤ rest.length) :
+    parseAlcPkt (f.encode ++ rest) =
+      ((match findExt f.exts 64 with
+        | none => (.ok none : Out (Option (Oti × Nat)))
+        | some e => (getFtiBytes f.cp e.encode).bind fun v => .ok (some v)).bind fun fti =>
+       (cencOf ((findExt f.exts 193).map Ext.encode)).bind fun cenc =>
+       (if f.toi = 0 then
+          (match findExt f.exts 192 with
+           | some e => parseExtFdt e.encode
+           | none => .ok none)
+        else .ok none).bind fun fdtInfo =>
+       .ok { lct := parsedOf f, oti := fti.map (fun (p : Oti × Nat) => p.1), transferLength := fti.map (fun (p : Oti × Nat) => p.2), cenc := cenc,
+             fdtInfo := fdtInfo, alcHeaderOffset := 4 * f.hdrLen, payloadOffset := payloadIdLen f.cp + 4 * f.hdrLen }) := by
+  have g64 := getExt_encode f hv rest 64
+  have g193 := getExt_encode f hv rest 193
+  have g192 := getExt_encode f hv rest 192
+  have hcp : (parsedOf f).cp = f.cp := rfl
+  have htoi : (parsedOf f).toi = f.toi := rfl
+  have hl : (parsedOf f).len = 4 * f.hdrLen := rfl
+  unfold parseAlcPkt
+  rw [parseLctHeader_encode f hv rest, Out.bind_ok, hcp, if_neg (by simp [hk])]
+  simp only []
+  rw [if_neg (by rw [hl, List.length_append, length_encode f hv]; omega)]
+  unfold getFti fdtInfoOf
+  rw [show EXT_FTI = 64 from rfl, show EXT_CENC = 193 from rfl, show EXT_FDT = 192 from rfl, g64, g193, htoi, hl,
+    Out.bind_ok]
+  congr 1
+  · cases findExt f.exts 64 <;> rfl
+  · funext fti
+    rw [Out.bind_ok]
+    congr 1
+    funext cenc
+    congr 1
+    by_cases h : f.toi = 0
+    · rw [if_pos h, if_pos h, g192, Out.bind_ok]
+      cases findExt f.exts 192 <;> rfl
+    · rw [if_neg h, if_neg h]
+
+/-- **alc_pkt_spec_decode** ("an independent implementation of those RFCs decodes identical values", forward
+    direction, whole packet): for every packet flute builds (same quantification as `alc_pkt_roundtrip`, payload
+    made of bytes) the INDEPENDENT decoder `Spec.decodeLct` accepts the datagram and reads: version 1, the sender's
+    CCI / TSI / TOI / codepoint / A = 0 / B flag, and a list of extensions in which its extension search finds
+    - EXT_FDT iff TOI = 0, which `Spec.decodeExtFdt` reads as (FLUTE version of the profile, id mod 2^20),
+    - EXT_CENC iff flute's condition, read by `Spec.decodeExtCenc` as the sender's content encoding,
+    - EXT_TIME iff enabled, read by `Spec.decodeExtTimeSct` as an NTP timestamp that a truncating receiver converts
+      to exactly the sender's microsecond,
+    - EXT_FTI iff sent, whose octets are `wfti` (per scheme the RFC diagram of the OTI values, which
+      `spec_fti_roundtrip` inverts),
+    then the payload id octets `wpid` (per scheme the RFC diagram, inverted by `spec_fpid_roundtrip`) at the header
+    length, then exactly the payload. -/
+theorem alc_pkt_spec_decode (oti : Oti) (cci tsi : Nat) (pkt : Pkt) (rfc3926 : Bool) (nowUs id : Nat)
+    (wfti : List Nat) (nfti : Nat) (o' : Oti) (wpid : List Nat) (pid : PayloadId)
+    (hk : knownFec oti.fecId = true) (hcci : cci < 2^128) (htsi : tsi < 2^48) (htoi : pkt.toi < 2^112)
+    (hfdt : pkt.toi = 0 → pkt.fdtId = some id) (hcenc : pkt.cenc ≤ 3)
+    (hnow : pkt.senderCurrentTime = true → nowUs / 1000000 + 2208988800 < 2^32)
+    (hfti : (pkt.toi = 0 ∨ oti.inbandFti = true) → FtiOk oti pkt.transferLength wfti nfti o') (hn : nfti ≤ 4)
+    (hpid : PidOk oti pkt.sbn pkt.esi pkt.sourceBlockLength wpid pid) (hwp : Wf wpid) (hpay : Wf pkt.payload) :
+    ∃ d f, newAlcPkt oti cci tsi pkt rfc3926 nowUs = .ok d ∧ decodeLct d = some (f, 4 * f.hdrLen) ∧
+      f.v = 1 ∧ f.psi = 0 ∧ f.cci = cci ∧ f.tsi = tsi ∧ f.toi = pkt.toi ∧ f.cp = oti.fecId ∧ f.a = 0 ∧
+      f.b = b2n pkt.closeObject ∧
+      ((findExt f.exts 192).bind fun e => decodeExtFdt e.encode) =
+        (if pkt.toi = 0 then some (if rfc3926 = true then 1 else 2, id % 2^20) else none) ∧
+      ((findExt f.exts 193).bind fun e => decodeExtCenc e.encode) =
+        (if (pkt.toi = 0 ∧ pkt.cenc ≠ 0) ∨ pkt.inbandCenc = true then some pkt.cenc else none) ∧
+      (((findExt f.exts 2).bind fun e => decodeExtTimeSct e.encode).map fun (t : Nat × Nat) => ntpToMicrosFloor t.1 t.2) =
+        (if pkt.senderCurrentTime = true then some nowUs else none) ∧
+      (findExt f.exts 64).map Ext.encode = (if pkt.toi = 0 ∨ oti.inbandFti = true then some wfti else none) ∧
+      octetsAt d (4 * f.hdrLen) wpid.length = wpid ∧ d.drop (4 * f.hdrLen + wpid.length) = pkt.payload := by
+  have hcp : oti.fecId < 256 := by simp only [knownFec, decide_eq_true_eq] at hk; omega
+  obtain ⟨ntp, hntp1, hntp2, hntp3⟩ : ∃ ntp, (pkt.senderCurrentTime = true → systemTimeToNtp nowUs = .ok ntp) ∧ ntp < 2^64 ∧
+      (pkt.senderCurrentTime = true → ntpToMicrosFloor (ntp / 2^32) (ntp % 2^32) = nowUs) := by
+    by_cases h : pkt.senderCurrentTime = true
+    · obtain ⟨ntp, a, _, b, _⟩ := ntp_eq_spec nowUs (hnow h)
+      obtain ⟨ntp', a', c', _⟩ := ntp_roundtrip nowUs (hnow h)
+      have : ntp = ntp' := by rw [a] at a'; cases a'; rfl
+      subst this
+      exact ⟨ntp, fun _ => a, c', fun _ => b⟩
+    · exact ⟨0, fun h' => absurd h' h, by decide, fun h' => absurd h' h⟩
+  obtain ⟨hv, hbuild⟩ := newAlcPkt_layout oti cci tsi pkt rfc3926 nowUs ntp id wfti nfti o' wpid hcp hcci htsi htoi hfdt
+    (by omega) hntp1 hfti hn hpid.build
+  have hver : (if rfc3926 = true then 1 else 2 : Nat) < 16 := by split <;> omega
+  obtain ⟨x192, x193, x2, x64⟩ := findExt_pkt (pkt.toi = 0) ((pkt.toi = 0 ∧ pkt.cenc ≠ 0) ∨ pkt.inbandCenc = true)
+    (pkt.senderCurrentTime = true) (pkt.toi = 0 ∨ oti.inbandFti = true)
+    (fdtBytes (if rfc3926 then 1 else 2) id) (cencBytes pkt.cenc) (sctBytes ntp) wfti 1 1 3 nfti
+    (fun _ => fdtBytes_ext _ _ hver) (fun _ => cencBytes_ext _ (by omega)) (fun _ => sctBytes_ext _)
+    (fun h => (hfti h).ext)
+  have hdec := decodeLct_encode _ hv (pktHeader_canon oti cci tsi pkt rfc3926 ntp id wfti) (wpid ++ pkt.payload)
+    (wf_append hwp hpay)
+  have hl := length_encode _ hv
+  generalize hf : pktHeader oti cci tsi pkt rfc3926 ntp id wfti = f at hv hbuild hdec hl
+  have hE : f.exts = [] ++ optExt (pkt.toi = 0) (fdtBytes (if rfc3926 then 1 else 2) id)
+      ++ optExt ((pkt.toi = 0 ∧ pkt.cenc ≠ 0) ∨ pkt.inbandCenc = true) (cencBytes pkt.cenc)
+      ++ optExt (pkt.senderCurrentTime = true) (sctBytes ntp)
+      ++ optExt (pkt.toi = 0 ∨ oti.inbandFti = true) wfti := by rw [← hf]; rfl
+  rw [← hE] at x192 x193 x2 x64
+  -- `findExt … |>.bind (dec ∘ encode)` from `findExt … |>.map encode`
+  have bindmap : ∀ {β} (o : Option Ext) (g : List Nat → Option β), (o.bind fun e => g e.encode) = (o.map Ext.encode).bind g := by
+    intro β o g; cases o <;> rfl
+  refine ⟨_, f, hbuild, hdec, ?_, ?_, ?_, ?_, ?_, ?_, ?_, ?_, ?_, ?_, ?_, x64, ?_, ?_⟩
+  · rw [← hf]; rfl
+  · rw [← hf]; rfl
+  · rw [← hf]; rfl
+  · rw [← hf]; rfl
+  · rw [← hf]; rfl
+  · rw [← hf]; rfl
+  · rw [← hf]; rfl
+  · rw [← hf]; rfl
+  · rw [bindmap, x192]
+    by_cases h : pkt.toi = 0
+    · simp only [if_pos h, Option.bind_some]
+      rw [fdtBytes_eq_spec _ _ hver]
+      exact decodeExtFdt_encode _ _ hver (Nat.mod_lt _ (by decide))
+    · simp only [if_neg h, Option.bind_none]
+  · rw [bindmap, x193]
+    by_cases h : (pkt.toi = 0 ∧ pkt.cenc ≠ 0) ∨ pkt.inbandCenc = true
+    · simp only [if_pos h, Option.bind_some]
+      rw [cencBytes_eq_spec]
+      exact decodeExtCenc_encode _ (by simp only [Nat.reducePow]; omega)
+    · simp only [if_neg h, Option.bind_none]
+  · rw [bindmap, x2]
+    by_cases h : pkt.senderCurrentTime = true
+    · simp only [if_pos h, Option.bind_some]
+      rw [sctBytes_eq_spec ntp hntp2]
+      simp only [Nat.reducePow] at hntp2 ⊢
+      rw [decodeExtTimeSct_encode _ _ (by simp only [Nat.reducePow]; omega) (by simp only [Nat.reducePow]; omega)]
+      simp only [Option.map_some]
+      have := hntp3 h
+      simp only [Nat.reducePow] at this
+      rw [this]
+    · simp only [if_neg h, Option.bind_none, Option.map_none]
+  · unfold octetsAt
+    rw [← hl, List.drop_left, List.take_left]
+  · rw [← hl, ← List.length_append, ← List.append_assoc, List.drop_left]
 
 end Flute.Props.C06
